@@ -15,14 +15,23 @@
    The request id counter is Gen.ArithFromGo.go_nextRequestID (translated from the Go AST on every run); the type id
    that makes the dispatcher lock the receive gate is Gen.SendSide.opn_response_type_id.
 
-   `leaky = true` is the code before the fix "release the response handler when sending the request fails"
-   (kept to state what was wrong); `leaky = false` is the code as it is now and what the correspondence checks. *)
+   Versions (parameter `leaky : ver` of step, name kept from the first fix):
+     VLeaky    the code before fix 584974e "release the response handler when sending the request fails"
+     VGateOld  after that fix, before the fix of the dispatcher/open() hand-off: the dispatcher locks rcvLocker for
+               ANY OpenSecureChannelResponse it has a handler for
+     VNow      the code as it is: open() publishes the request id it waits for (openingReqID, guarded by rcvLocker's
+               mutex, cleared before its deferred unlock) and the dispatcher locks only for that id (lockIf).
+   The correspondence checks VNow; the older versions are kept to state what was wrong. *)
 From Coq Require Import ZArith List Bool Lia.
 From Opcua Require Import Gen.ArithFromGo Gen.SendSide.
 Import ListNotations.
 Open Scope Z_scope.
 
 Definition tid := nat.
+
+Inductive ver := VLeaky | VGateOld | VNow.
+Definition is_leaky (v : ver) : bool := match v with VLeaky => true | _ => false end.
+Definition gate_fixed (v : ver) : bool := match v with VNow => true | _ => false end.
 
 Definition updN {A} (f : nat -> A) (k : nat) (v : A) : nat -> A := fun x => if Nat.eqb x k then v else f x.
 Definition updZ {A} (f : Z -> A) (k : Z) (v : A) : Z -> A := fun x => if Z.eqb x k then v else f x.
@@ -60,31 +69,37 @@ Inductive dpc :=
 Inductive loc := LNet | LDisp | LSlot (t : tid) | LTaken (t : tid) | LGone.
 
 Record st := St {
-  next_req : Z;                          (* s.requestID *)
-  handlers : Z -> option tid;            (* s.handlers: request id -> channel (one channel per caller) *)
-  slot : tid -> option (nat * msg);      (* content of caller's buffered channel (capacity 1) *)
+  next_req : Z   (* s.requestID *);
+  handlers : Z -> option tid   (* s.handlers: request id -> channel (one channel per caller) *);
+  slot : tid -> option (nat * msg)   (* content of caller's buffered channel (capacity 1) *);
   cs : tid -> cpc;
   d : dpc;
-  net_n : nat;                           (* messages received so far = unique index of the next one *)
-  rcv_locked : bool;                     (* s.rcvLocker.bLock *)
-  disconnected : bool;                   (* s.disconnected closed *)
-  overflow : bool;                       (* the dispatcher's `default:` branch ("should never happen") was taken *)
-  g_nalloc : nat; g_serial : tid -> nat; g_loc : nat -> loc }.
+  net_n : nat   (* messages received so far = unique index of the next one *);
+  rcv_locked : bool   (* s.rcvLocker.bLock *);
+  disconnected : bool   (* s.disconnected closed *);
+  overflow : bool   (* the dispatcher's `default:` branch ("should never happen") was taken *);
+  opening : option Z   (* s.openingReqID: the request id open() is waiting for (None = 0) *);
+  open_by : option tid   (* which call holds s.openingMu (open() is serialised) *);
+  g_nalloc : nat;
+  g_serial : tid -> nat;
+  g_loc : nat -> loc }.
 
-Definition set_next_req s v := St v (handlers s) (slot s) (cs s) (d s) (net_n s) (rcv_locked s) (disconnected s) (overflow s) (g_nalloc s) (g_serial s) (g_loc s).
-Definition set_handlers s v := St (next_req s) v (slot s) (cs s) (d s) (net_n s) (rcv_locked s) (disconnected s) (overflow s) (g_nalloc s) (g_serial s) (g_loc s).
-Definition set_slot s v := St (next_req s) (handlers s) v (cs s) (d s) (net_n s) (rcv_locked s) (disconnected s) (overflow s) (g_nalloc s) (g_serial s) (g_loc s).
-Definition set_cs s v := St (next_req s) (handlers s) (slot s) v (d s) (net_n s) (rcv_locked s) (disconnected s) (overflow s) (g_nalloc s) (g_serial s) (g_loc s).
-Definition set_d s v := St (next_req s) (handlers s) (slot s) (cs s) v (net_n s) (rcv_locked s) (disconnected s) (overflow s) (g_nalloc s) (g_serial s) (g_loc s).
-Definition set_net_n s v := St (next_req s) (handlers s) (slot s) (cs s) (d s) v (rcv_locked s) (disconnected s) (overflow s) (g_nalloc s) (g_serial s) (g_loc s).
-Definition set_rcv_locked s v := St (next_req s) (handlers s) (slot s) (cs s) (d s) (net_n s) v (disconnected s) (overflow s) (g_nalloc s) (g_serial s) (g_loc s).
-Definition set_disconnected s v := St (next_req s) (handlers s) (slot s) (cs s) (d s) (net_n s) (rcv_locked s) v (overflow s) (g_nalloc s) (g_serial s) (g_loc s).
-Definition set_overflow s v := St (next_req s) (handlers s) (slot s) (cs s) (d s) (net_n s) (rcv_locked s) (disconnected s) v (g_nalloc s) (g_serial s) (g_loc s).
-Definition set_alloc s n f := St (next_req s) (handlers s) (slot s) (cs s) (d s) (net_n s) (rcv_locked s) (disconnected s) (overflow s) n f (g_loc s).
-Definition set_loc s v := St (next_req s) (handlers s) (slot s) (cs s) (d s) (net_n s) (rcv_locked s) (disconnected s) (overflow s) (g_nalloc s) (g_serial s) v.
+Definition set_next_req s v := St v (handlers s) (slot s) (cs s) (d s) (net_n s) (rcv_locked s) (disconnected s) (overflow s) (opening s) (open_by s) (g_nalloc s) (g_serial s) (g_loc s).
+Definition set_handlers s v := St (next_req s) v (slot s) (cs s) (d s) (net_n s) (rcv_locked s) (disconnected s) (overflow s) (opening s) (open_by s) (g_nalloc s) (g_serial s) (g_loc s).
+Definition set_slot s v := St (next_req s) (handlers s) v (cs s) (d s) (net_n s) (rcv_locked s) (disconnected s) (overflow s) (opening s) (open_by s) (g_nalloc s) (g_serial s) (g_loc s).
+Definition set_cs s v := St (next_req s) (handlers s) (slot s) v (d s) (net_n s) (rcv_locked s) (disconnected s) (overflow s) (opening s) (open_by s) (g_nalloc s) (g_serial s) (g_loc s).
+Definition set_d s v := St (next_req s) (handlers s) (slot s) (cs s) v (net_n s) (rcv_locked s) (disconnected s) (overflow s) (opening s) (open_by s) (g_nalloc s) (g_serial s) (g_loc s).
+Definition set_net_n s v := St (next_req s) (handlers s) (slot s) (cs s) (d s) v (rcv_locked s) (disconnected s) (overflow s) (opening s) (open_by s) (g_nalloc s) (g_serial s) (g_loc s).
+Definition set_rcv_locked s v := St (next_req s) (handlers s) (slot s) (cs s) (d s) (net_n s) v (disconnected s) (overflow s) (opening s) (open_by s) (g_nalloc s) (g_serial s) (g_loc s).
+Definition set_disconnected s v := St (next_req s) (handlers s) (slot s) (cs s) (d s) (net_n s) (rcv_locked s) v (overflow s) (opening s) (open_by s) (g_nalloc s) (g_serial s) (g_loc s).
+Definition set_overflow s v := St (next_req s) (handlers s) (slot s) (cs s) (d s) (net_n s) (rcv_locked s) (disconnected s) v (opening s) (open_by s) (g_nalloc s) (g_serial s) (g_loc s).
+Definition set_opening s v := St (next_req s) (handlers s) (slot s) (cs s) (d s) (net_n s) (rcv_locked s) (disconnected s) (overflow s) v (open_by s) (g_nalloc s) (g_serial s) (g_loc s).
+Definition set_open_by s v := St (next_req s) (handlers s) (slot s) (cs s) (d s) (net_n s) (rcv_locked s) (disconnected s) (overflow s) (opening s) v (g_nalloc s) (g_serial s) (g_loc s).
+Definition set_alloc s n f := St (next_req s) (handlers s) (slot s) (cs s) (d s) (net_n s) (rcv_locked s) (disconnected s) (overflow s) (opening s) (open_by s) n f (g_loc s).
+Definition set_loc s v := St (next_req s) (handlers s) (slot s) (cs s) (d s) (net_n s) (rcv_locked s) (disconnected s) (overflow s) (opening s) (open_by s) (g_nalloc s) (g_serial s) v.
 
 Definition init (seed : Z) : st :=
-  St seed (fun _ => None) (fun _ => None) (fun _ => CNew) DIdle 0 false false false 0 (fun _ => 0%nat) (fun _ => LNet).
+  St seed (fun _ => None) (fun _ => None) (fun _ => CNew) DIdle 0 false false false None None 0 (fun _ => 0%nat) (fun _ => LNet).
 
 Inductive ev :=
 | EAlloc (t : tid) (k : kind) (w : Z)
@@ -98,10 +113,16 @@ Inductive ev :=
 Definition handler_ok (w : Z) (m : msg) : bool :=
   match m_ty m with Some ty => ty =? w | None => false end.
 
-(* the call returns.  open() runs `defer s.rcvLocker.unlock()`. *)
+(* the call returns.  open() clears openingReqID, runs `defer s.rcvLocker.unlock()` and releases openingMu
+   (one step here; in the code openingMu is released between the two, which matters only for overlapping open() calls
+   and not for the statements made about this model). *)
 Definition finish (s : st) (t : tid) (k : kind) (w id : Z) (r : result) : st :=
   let s := set_cs s (updN (cs s) t (CDone k w id r)) in
-  match k with KOpen => set_rcv_locked s false | KReq => s end.
+  match k with KOpen => set_open_by (set_opening (set_rcv_locked s false) None) None | KReq => s end.
+
+(* open() holds openingMu for its whole duration: a second open() waits *)
+Definition open_blocked (s : st) (k : kind) : bool :=
+  match k, open_by s with KOpen, Some _ => true | _, _ => false end.
 
 (* select branches other than `msg := <-ch`: popHandler(reqID), return the error *)
 Definition give_up (s : st) (t : tid) (r : result) : option st :=
@@ -110,14 +131,16 @@ Definition give_up (s : st) (t : tid) (r : result) : option st :=
   | _ => None
   end.
 
-Definition step (leaky : bool) (s : st) (e : ev) : option st :=
+Definition step (leaky : ver) (s : st) (e : ev) : option st :=
   match e with
   | EAlloc t k w =>
       match cs s t with
       | CNew =>
+          if open_blocked s k then None else
           let id := go_nextRequestID (next_req s) in
           let s := set_next_req s id in
           let s := set_cs s (updN (cs s) t (CHasId k w id)) in
+          let s := match k with KOpen => set_open_by (set_opening s (Some id)) (Some t) | KReq => s end in
           Some (set_alloc s (S (g_nalloc s)) (updN (g_serial s) t (S (g_nalloc s))))
       | _ => None
       end
@@ -134,7 +157,7 @@ Definition step (leaky : bool) (s : st) (e : ev) : option st :=
       match cs s t with
       | CRegd k w id =>
           if ok then Some (set_cs s (updN (cs s) t (CWait k w id)))
-          else if leaky then Some (finish s t k w id RSendErr)
+          else if is_leaky leaky then Some (finish s t k w id RSendErr)
           else Some (finish (set_handlers s (updZ (handlers s) id None)) t k w id RSendErr)
       | _ => None
       end
@@ -171,7 +194,12 @@ Definition step (leaky : bool) (s : st) (e : ev) : option st :=
       end
   | ELock =>
       match d s with
-      | DHave u m ch => Some (set_d (set_rcv_locked s (rcv_locked s || is_opn m)) (DLocked u m ch))
+      | DHave u m ch =>
+          (* before the fix: rcvLocker.lock() for every OpenSecureChannelResponse;
+             now: rcvLocker.lockIf(openingReqID == msg.RequestID), evaluated under the locker's mutex *)
+          let mine := match opening s with Some i => i =? m_id m | None => false end in
+          let lk := is_opn m && (negb (gate_fixed leaky) || mine) in
+          Some (set_d (set_rcv_locked s (rcv_locked s || lk)) (DLocked u m ch))
       | _ => None
       end
   | EDeliver =>
@@ -191,7 +219,7 @@ Definition step (leaky : bool) (s : st) (e : ev) : option st :=
   end.
 
 (* runs restricted by a predicate on (state, event); P = fun _ _ => true gives all runs *)
-Fixpoint runP (P : st -> ev -> bool) (leaky : bool) (evs : list ev) (s : st) : option st :=
+Fixpoint runP (P : st -> ev -> bool) (leaky : ver) (evs : list ev) (s : st) : option st :=
   match evs with
   | [] => Some s
   | e :: r => if P s e then match step leaky s e with Some s' => runP P leaky r s' | None => None end else None
@@ -200,7 +228,7 @@ Fixpoint runP (P : st -> ev -> bool) (leaky : bool) (evs : list ev) (s : st) : o
 Definition anyev (_ : st) (_ : ev) : bool := true.
 Definition run := runP anyev.
 
-Definition reachableP (P : st -> ev -> bool) (leaky : bool) (seed : Z) (s : st) : Prop :=
+Definition reachableP (P : st -> ev -> bool) (leaky : ver) (seed : Z) (s : st) : Prop :=
   exists evs, runP P leaky evs (init seed) = Some s.
 Definition reachable := reachableP anyev.
 
@@ -264,7 +292,7 @@ Inductive hev :=
 | HCall (t : tid) (k : kind) (w : Z)     (* the whole send phase of one call: EAlloc; ERegister; EWrite true *)
 | HFrame (m : msg).                      (* one frame through the dispatcher: ENet; EPop; and if a handler was found ELock; EDeliver; EResume *)
 
-Definition frame_cycle (leaky : bool) (s : st) (m : msg) : option st :=
+Definition frame_cycle (leaky : ver) (s : st) (m : msg) : option st :=
   match run leaky [ENet m; EPop] s with
   | Some s1 =>
       match d s1 with
@@ -278,7 +306,7 @@ Definition frame_cycle (leaky : bool) (s : st) (m : msg) : option st :=
   | None => None
   end.
 
-Fixpoint hrun (leaky : bool) (l : list hev) (s : st) : option st :=
+Fixpoint hrun (leaky : ver) (l : list hev) (s : st) : option st :=
   match l with
   | [] => Some s
   | HE e :: r => match step leaky s e with Some s' => hrun leaky r s' | None => None end
@@ -299,7 +327,7 @@ Definition outcome_agrees (s : st) (o : nat * (Z * Z * Z)) : bool :=
   let '(c', i', u') := outcome s t in
   (c =? c') && (i =? i') && ((u =? -2) || (u =? u')).
 
-Definition history_agrees (leaky : bool) (start : Z) (l : list hev) (outs : list (nat * (Z * Z * Z)))
+Definition history_agrees (leaky : ver) (start : Z) (l : list hev) (outs : list (nat * (Z * Z * Z)))
            (probe hs : list Z) (rl : bool) (dcode : Z) : bool :=
   match hrun leaky l (init start) with
   | Some s => forallb (outcome_agrees s) outs && zlist_eqb (registered s probe) hs && Bool.eqb (rcv_locked s) rl
